@@ -49,7 +49,7 @@ def unit_public():
     for n in (0, 63, 64, 66):
         hs.append(Harness(f"verify_short_{n}", ["C04", "C12"], complete=False, bound=f"payload length {n}", functions=[f"{P}::unseal"]))
     return Unit(
-        name="v2_public", members=["paseto-core", "paseto-v2"], package="paseto-v2",
+        name="v2_public", group="v2", members=["paseto-core", "paseto-v2"], package="paseto-v2",
         inject=[(P, ["units/common/pae_stub.rs", "units/v2/public.rs"])],
         patches=MODELS_FULL, harness_path="core::public::verif",
         kani_flags=["-Z", "stubbing", "--no-assertion-reach-checks"], no_default_features=True, features=["signing"],
@@ -65,7 +65,7 @@ ASSUME_PASERK = ASSUME[:3] + [
 
 def paserk_unit(name, file, src, path, feats, hs, assume):
     return Unit(
-        name=name, members=["paseto-core", "paseto-v2"], package="paseto-v2",
+        name=name, group="v2", members=["paseto-core", "paseto-v2"], package="paseto-v2",
         inject=[(file, ["units/common/pae_stub.rs", src])],
         patches=MODELS_FULL, harness_path=path,
         kani_flags=["-Z", "stubbing", "--no-assertion-reach-checks"], no_default_features=True, features=feats,
@@ -158,7 +158,7 @@ def unit_local():
     for n in (0, 23, 24):
         hs.append(Harness(f"seal_short_{n}", ["C04"], complete=False, bound=f"payload length {n}", functions=[f"{L}::dangerous_seal_with_nonce"]))
     return Unit(
-        name="v2_local", members=["paseto-core", "paseto-v2"], package="paseto-v2",
+        name="v2_local", group="v2", members=["paseto-core", "paseto-v2"], package="paseto-v2",
         inject=[(L, ["units/common/pae_stub.rs", "units/v2/local.rs"])],
         patches=MODELS, harness_path="core::local::verif",
         kani_flags=["-Z", "stubbing", "--no-assertion-reach-checks"], no_default_features=True, features=["encrypting"],
